@@ -65,6 +65,11 @@ CHECKS = {
    text="Every operation history of length <=4 (thorough 5: 37 M) over update / update-empty / delete / hash / commit+reload / flush+reload / reference-dereference / copy / fork on colliding raw keys ('', a, ab, abc, b) and on secure-trie preimages whose hashes share 1-3 nibbles, with 2/3/33-byte values: every Get equals the map model, the root equals a trie rebuilt from the content in sorted and in reverse order and the StackTrie, retained copies are unchanged; Prove/VerifyProof yields the model value or absence for every key; every single-bit flip of every proof node (2.3 M / 5.4 M corruptions) is rejected; all subsets of 10 (13) two-byte keys agree between Trie and StackTrie; DeriveSha(StackTrie) equals DeriveSha(Trie) for list lengths 0..130 (300) x 6 item sizes.",
    note="Trusts: keccak; VerifyRangeProof and depth-6 histories are not covered; proofs are modelled as the list of blobs re-keyed by the verifier (what core/state.proofList ships). Built by a helper agent, reviewed and integrated (reports/C18.md).",
    design="2/C18"),
+ "C20": dict(
+   technique="exhaustive boundary grid over the conversion helpers; exhaustive sets of conversions injected before a prime block on a real 3-level node with a per-id monitor from origin to outcome",
+   text="(algebra) 58 boundary amounts (1, every denomination +-1, minimum conversion +-1, powers of ten, 2^64, 2^128) x 5 exchange rates x 4 difficulties x both sides of the reward fork: QiToQuai(QuaiToQi(x)) <= x and conversely, the cubic discount stays within [0, value] for every (value, mean) pair, the denomination split never exceeds the value and loses nothing above the smallest denomination. (pipeline) every single conversion (thorough: every ordered pair) from a 24-member menu (direction x {minimum, 3 000, 200 000 Quai | spend of a 1 Qi / 0.1 Qi output} x slippage {default, 0.3%, 50%} x destination gas {too small to mint everything, ample}) plus pairs of extreme members is injected before a prime block; for every conversion id exactly one outcome is observed; a converted credit is at most what the exchange rate recorded around that prime block implies and at least the 10% floor, minted Qi never exceeds the repriced value, the Quai recipient never gains more than the repriced sum, a reverted conversion carries exactly the original amount and is refunded on the origin ledger.",
+   note="Trusts: scaled constants (lock period 3, controller from prime block 1); flat exchange-rate trajectory (rising/falling trajectories are not steered); Qi->Quai conversions below 1 Qi only. Known finding: reverted Qi->Quai conversions are refunded without the denominations below the trim limit.",
+   design="2/C20"),
 }
 
 NOT_YET = "check not built yet in this session (planned; see DESIGN.md section 2)"
